@@ -139,7 +139,7 @@ def run(ctx):
         if not ok_any:
             viol(report, "C16-R1", b, "no-result", "%s: no result aggregate found on any path" % b.qname)
         # aggregates built inside closures of into_owned (e.g. the per-item maps)
-        for cb in [x for x in prog.bodies.values() if x.kind == "Closure" and x.root == b.id]:
+        for cb in mu.closures_of(prog, b):
             try:
                 cl = Extractor(prog, cb).run()
             except NotATable:
@@ -221,7 +221,7 @@ def normalisers(prog, cg, b):
 def fields_used(prog, b):
     """names of the self fields a hash()/eq() body reads (including through its closures)"""
     out = set()
-    bodies = [b] + [x for x in prog.bodies.values() if x.kind == "Closure" and x.root == b.id]
+    bodies = [b] + mu.closures_of(prog, b)
     for bb in bodies:
         for bl in bb.blocks:
             if bl["cleanup"]:
@@ -262,7 +262,7 @@ UNORDERED = re.compile(r"std::collections::(hash_set|hash_map)::(Iter|IntoIter|K
 def unordered_feeds(prog, h):
     """(message, snippet) for every way the hasher is fed in HashSet/HashMap iteration order"""
     out = []
-    closures = {x.id: x for x in prog.bodies.values() if x.kind == "Closure" and x.root == h.id}
+    closures = {x.id: x for x in mu.closures_of(prog, h)}
     tainted = {}
     order = sorted(mu.noncleanup_blocks(h))
     for bi in order:
